@@ -10,6 +10,7 @@ import (
 
 	"github.com/markusressel/fan2go/internal"
 	"github.com/markusressel/fan2go/internal/configuration"
+	"github.com/markusressel/fan2go/internal/fans"
 	"github.com/markusressel/fan2go/internal/hwmon"
 	"github.com/markusressel/fan2go/internal/sensors"
 	"github.com/prometheus/client_golang/prometheus"
@@ -56,6 +57,15 @@ func genC17Tree(r *rand.Rand) *c17Tree {
 			case 2:
 				c.TempOnly = append(c.TempOnly, ix)
 			}
+		}
+		switch r.Intn(8) {
+		case 0, 1: // a pure fan controller: no temperature inputs at all
+			c.Temps, c.TempOnly = nil, nil
+			if len(c.Fans) == 0 {
+				c.Fans = []int{1 + r.Intn(6)}
+			}
+		case 2: // a pure temperature chip
+			c.Fans = nil
 		}
 		if len(c.Fans) == 0 && len(c.Temps) == 0 {
 			c.Temps = []int{1}
@@ -351,6 +361,82 @@ func runC17(ctx *Ctx, idx int) {
 			}
 		}
 		ctx.Nontrivial(fmt.Sprintf("multi|chips%d|%v", len(t.Chips), sels))
+	}
+	// ---- whole configurations: hwmon fans and hwmon sensors together through the daemon's InitializeObjects; every
+	// entry names an existing device, so start-up must succeed with every entry bound to its own device
+	for k := 0; k < 3; k++ {
+		cfg := configuration.Configuration{}
+		var fsels []c17FanSel
+		var ssels []c17SensorSel
+		for tries := 0; tries < 60 && len(fsels) < 1+r.Intn(2); tries++ {
+			sel := c17FanSel{Chip: r.Intn(len(t.Chips))}
+			if r.Intn(2) == 0 {
+				sel.RpmChannel = 1 + r.Intn(6)
+			} else {
+				sel.Index = 1 + r.Intn(6)
+			}
+			if _, _, _, ok := t.refFan(root, sel); ok {
+				fsels = append(fsels, sel)
+			}
+		}
+		for tries := 0; tries < 60 && len(ssels) < 1+r.Intn(2); tries++ {
+			sel := c17SensorSel{Chip: r.Intn(len(t.Chips)), Index: 1 + r.Intn(6)}
+			if _, ok := t.refSensor(root, sel); ok {
+				ssels = append(ssels, sel)
+			}
+		}
+		if len(fsels) == 0 || len(ssels) == 0 {
+			continue
+		}
+		for j, sel := range ssels {
+			cfg.Sensors = append(cfg.Sensors, configuration.SensorConfig{ID: fmt.Sprintf("wsensor-%d-%d-%d", idx, k, j), HwMon: &configuration.HwMonSensorConfig{Platform: t.platform(sel.Chip), Index: sel.Index}})
+		}
+		cfg.Curves = []configuration.CurveConfig{{ID: "wcurve", Linear: &configuration.LinearCurveConfig{Sensor: cfg.Sensors[0].ID, Min: 40, Max: 80}}}
+		for j, sel := range fsels {
+			cfg.Fans = append(cfg.Fans, configuration.FanConfig{ID: fmt.Sprintf("wfan-%d-%d-%d", idx, k, j), Curve: "wcurve", HwMon: &configuration.HwMonFanConfig{Platform: t.platform(sel.Chip), Index: sel.Index, RpmChannel: sel.RpmChannel}})
+		}
+		configuration.CurrentConfig = cfg
+		reg := prometheus.NewRegistry()
+		prometheus.DefaultRegisterer, prometheus.DefaultGatherer = reg, reg
+		var err error
+		p, msg := Guard(func() { _, err = internal.InitializeObjects() })
+		ctx.Eval(1)
+		replay := map[string]interface{}{"tree": t, "fans": fsels, "sensors": ssels}
+		if p {
+			ctx.Violation("whole-config:panic", firstLines(msg, 6), replay)
+			continue
+		}
+		if err != nil {
+			ctx.Violation("whole-config:existing-devices-not-bound", fmt.Sprintf("%s: %v", jsonStr(replay), err), replay)
+			continue
+		}
+		for j, sel := range fsels {
+			wantRpm, wantPwm, wantEn, _ := t.refFan(root, sel)
+			f, _ := fans.GetFan(cfg.Fans[j].ID)
+			hf, ok := f.(*fans.HwMonFan)
+			if !ok || hf.Config.HwMon.RpmInputPath != wantRpm || hf.Config.HwMon.PwmPath != wantPwm || hf.Config.HwMon.PwmEnablePath != wantEn {
+				got := "<not registered>"
+				if ok {
+					got = hf.Config.HwMon.RpmInputPath + " / " + hf.Config.HwMon.PwmPath
+				}
+				ctx.Violation("whole-config:fan-bound-to-wrong-device", fmt.Sprintf("%s: fan %d got %s, want %s / %s", jsonStr(replay), j, got, wantRpm, wantPwm), replay)
+			}
+		}
+		for j, sel := range ssels {
+			want, _ := t.refSensor(root, sel)
+			sn, _ := sensors.GetSensor(cfg.Sensors[j].ID)
+			hs, ok := sn.(*sensors.HwmonSensor)
+			if !ok || hs.Input != want {
+				ctx.Violation("whole-config:sensor-bound-to-wrong-device", fmt.Sprintf("%s: sensor %d want %s", jsonStr(replay), j, want), replay)
+			}
+		}
+		fanOnly := 0
+		for _, c := range t.Chips {
+			if len(c.Temps) == 0 {
+				fanOnly++
+			}
+		}
+		ctx.Nontrivial(fmt.Sprintf("whole|chips%d|chipsWithoutTemps%d|order%v|%v|%v", len(t.Chips), fanOnly, t.Order, fsels, ssels))
 	}
 	if idx < 2 {
 		ctx.Sample(map[string]interface{}{"tree": t})
